@@ -10,7 +10,6 @@ import datetime
 import heapq
 import itertools
 import re
-import sys
 from functools import wraps
 # For warning about deprecation of until and count
 from warnings import warn
@@ -149,13 +148,16 @@ class rrulebase(object):
         if self._cache_complete:
             return self._cache[item]
         elif isinstance(item, slice):
-            if item.step and item.step < 0:
+            start, stop, step = item.start, item.stop, item.step
+            if ((step is not None and step <= 0) or
+                    (start is not None and start < 0) or
+                    (stop is not None and stop < 0)):
+                # Negative bounds count from the end and a non-positive step
+                # needs list semantics (a zero step is an error): both need
+                # the whole recurrence.
                 return list(iter(self))[item]
             else:
-                return list(itertools.islice(self,
-                                             item.start or 0,
-                                             item.stop or sys.maxsize,
-                                             item.step or 1))
+                return list(itertools.islice(self, start, stop, step))
         elif item >= 0:
             gen = iter(self)
             try:
